@@ -8,8 +8,9 @@ na_path = os.path.join(VERIF, 'tools', 'not_applicable.json')
 na = json.load(open(na_path)) if os.path.exists(na_path) else []
 props = [json.loads(l)['id'] for l in open(os.path.join(VERIF, 'properties.jsonl'))]
 checks = []
+enabled = {l.strip() for l in open(os.path.join(VERIF, 'tools', 'enabled.txt')) if l.strip() and not l.startswith('#')}
 for pid in props:
-    if pid not in CHECKS:
+    if pid not in CHECKS or pid not in enabled:
         continue
     c = CHECKS[pid]
     checks.append({
